@@ -45,11 +45,25 @@ DiffFile(apis, f, run) ==
       {Item("C12", "duplicated-entry", w(e), {}) :
           e \in {x \in Range(got) \cap Range(exp) : Bag(got)[x] # Bag(exp)[x]}}
 
+\* A run made through the command line (`coca api -f -p DIR`): api.csv lists the same handlers as the API list, one row
+\* each, with verb, URI and the handler's full name (the Size column belongs to C03)
+Concat(ss) == LET RECURSIVE C(_) C(k) == IF k > Len(ss) THEN <<>> ELSE ss[k] \o C(k + 1) IN C(1)
+DiffCsv(o, fs, r) ==
+  LET exp == Concat([i \in DOMAIN fs |-> Expected(fs[i])])
+      want == [i \in DOMAIN exp |-> [verb |-> exp[i].verb, uri |-> exp[i].uri,
+                                      caller |-> exp[i].pkg \o "." \o exp[i].cls \o "." \o exp[i].method]]
+  IN  IF ~o.csvOk THEN {Item("C12", "csv-missing-or-malformed", "run " \o ToString(r), {})}
+      ELSE {Item("C12", "csv-row-missing", "run " \o ToString(r) \o " " \o e.caller \o " " \o e.verb \o " " \o e.uri, {}) :
+              e \in {x \in Range(want) : x \notin Range(o.csv) \/ Bag(o.csv)[x] < Bag(want)[x]}} \cup
+           {Item("C12", "csv-row-unexpected", "run " \o ToString(r) \o " " \o e.caller \o " " \o e.verb \o " " \o e.uri, {}) :
+              e \in {x \in Range(o.csv) : x \notin Range(want) \/ Bag(o.csv)[x] > Bag(want)[x]}}
+
 DiffRun(rec, r) ==
   LET o == rec.observed[r]
       fs == [i \in DOMAIN rec.runs[r] |-> rec.files[rec.runs[r][i]]]
   IN  IF o.panic THEN {Item("C12", "panic", "run " \o ToString(r), {})}
-      ELSE UNION {DiffFile(o.apis, fs[i], r) : i \in DOMAIN fs} \cup
+      ELSE (IF o.cli THEN DiffCsv(o, fs, r) ELSE {}) \cup
+           UNION {DiffFile(o.apis, fs[i], r) : i \in DOMAIN fs} \cup
            {Item("C12", "foreign-entry", a.cls \o "." \o a.method, {}) :
               a \in {x \in Range(o.apis) : \A i \in DOMAIN fs : ~(x.pkg = fs[i].pkg /\ x.cls = fs[i].cls)}}
 
